@@ -95,6 +95,18 @@ Theorem x_fibre_equilibrium n (MT MC ML : matN S) (eq : fibre S) i k :
   x_apply_fibre n MT MC ML eq eq i k = eq i k.
 Proof. apply (ExchangeProofs.x_fixed_point S L). Qed.
 
+(* X on arrays: the result has exactly the entries of the broadcast batch shape times the UNCHANGED state count
+   (2 ns + 1 states x 3 components); the equilibrium is not part of the result at all *)
+Theorem x_apply_state_count (o : xop S) (s : smN S) sh d :
+  x_apply S o s = XOk S sh d -> length d = prodl (sh ++ [s_ns S s; 3%nat]).
+Proof.
+  unfold x_apply.
+  destruct (negb (forallb _ _)); [discriminate|].
+  destruct (negb (_ || _)); [discriminate|].
+  destruct (bshape _ _) as [osh|]; [|discriminate].
+  intros H. inversion H; subst. now rewrite map_length, seq_length.
+Qed.
+
 End WfExt.
 
 Arguments EOp {S}. Arguments ED {S}. Arguments eapply {S}. Arguments erun {S}.
